@@ -252,6 +252,7 @@ type StreamOpts struct {
 	NoLocalTS  bool
 	WinStart   int // with OnlyMesg: definitions take the profile fields [WinStart, WinStart+WinLen) (cyclic)
 	WinLen     int
+	CompNoRef  bool // compressed-timestamp records may come before any reference timestamp
 }
 
 var accumSources = map[byte]bool{} // record field numbers that feed accumulators
@@ -574,7 +575,7 @@ func genStream(r *Rng, o StreamOpts) *RecStream {
 		d := g.defs[local]
 		comp := false
 		var off byte
-		if o.Compressed && local < 4 && g.ref && r.Chance(1, 2) {
+		if o.Compressed && local < 4 && (g.ref || o.CompNoRef) && r.Chance(1, 2) {
 			comp = true
 			off = byte(r.Intn(32))
 		}
@@ -684,4 +685,64 @@ func frameFileType(b []byte, f *Frame) byte {
 		}
 	}
 	return 0
+}
+
+// stateProbeStreams builds small streams whose decoding is sensitive to every
+// piece of per-call decoder state being fresh: reference timestamp and last
+// offset (compressed record / local timestamp before any timestamp), the
+// definition slots (data record for a never-defined local type: must fail),
+// unknown-item counters. Used by the pools of C08, C09, C10 and C16.
+func stateProbeStreams(r *Rng) []*RecStream {
+	hdr := func() HeaderSpec { return HeaderSpec{Size: 12 + 2*r.Intn(2), Proto: 0x20, Profile: 2115, HCRC: "ok"} }
+	le32 := func(v uint32) string { b := make([]byte, 4); putN(b, false, uint64(v)); return hexs(b) }
+	ts := uint32(0x30000000 + r.Intn(1<<28))
+	var out []*RecStream
+	// 1. activity: compressed records before any timestamp, then a timestamp, then compressed again
+	out = append(out, &RecStream{Header: hdr(), Ops: []Op{
+		{Def: &DefOp{Local: 5, Arch: "le", Global: 0, Fields: [][3]int{{0, 1, 0}}}},
+		{Data: &DataOp{Local: 5, Bytes: "04"}},
+		{Def: &DefOp{Local: 0, Arch: "le", Global: 20, Fields: [][3]int{{3, 1, 2}}}},
+		{Data: &DataOp{Local: 0, Comp: true, Off: byte(r.Intn(32)), Bytes: "50"}},
+		{Data: &DataOp{Local: 0, Comp: true, Off: byte(r.Intn(32)), Bytes: "51"}},
+		{Def: &DefOp{Local: 1, Arch: "le", Global: 20, Fields: [][3]int{{253, 4, 0x86}, {3, 1, 2}}}},
+		{Data: &DataOp{Local: 1, Bytes: le32(ts) + "52"}},
+		{Data: &DataOp{Local: 0, Comp: true, Off: byte(r.Intn(32)), Bytes: "53"}},
+	}})
+	// 2. monitoring_b: local timestamp before any timestamp, then with one
+	out = append(out, &RecStream{Header: hdr(), Ops: []Op{
+		{Def: &DefOp{Local: 2, Arch: "le", Global: 0, Fields: [][3]int{{0, 1, 0}}}},
+		{Data: &DataOp{Local: 2, Bytes: "20"}},
+		{Def: &DefOp{Local: 3, Arch: "le", Global: 55, Fields: [][3]int{{11, 4, 0x86}}}},
+		{Data: &DataOp{Local: 3, Bytes: le32(ts + 7200)}},
+		{Def: &DefOp{Local: 4, Arch: "le", Global: 55, Fields: [][3]int{{253, 4, 0x86}, {11, 4, 0x86}}}},
+		{Data: &DataOp{Local: 4, Bytes: le32(ts+10) + le32(ts+3610)}},
+	}})
+	// 3. activity: activity.local_timestamp only
+	out = append(out, &RecStream{Header: hdr(), Ops: []Op{
+		{Def: &DefOp{Local: 0, Arch: "be", Global: 0, Fields: [][3]int{{0, 1, 0}}}},
+		{Data: &DataOp{Local: 0, Bytes: "04"}},
+		{Def: &DefOp{Local: 7, Arch: "le", Global: 34, Fields: [][3]int{{5, 4, 0x86}}}},
+		{Data: &DataOp{Local: 7, Bytes: le32(ts - 3600)}},
+	}})
+	// 4. a data record for a local type that was never defined (must fail the same way every time)
+	out = append(out, &RecStream{Header: hdr(), Ops: []Op{
+		{Def: &DefOp{Local: 1, Arch: "le", Global: 0, Fields: [][3]int{{0, 1, 0}}}},
+		{Data: &DataOp{Local: 1, Bytes: "04"}},
+		{Def: &DefOp{Local: 2, Arch: "le", Global: 20, Fields: [][3]int{{3, 1, 2}}}},
+		{Data: &DataOp{Local: 2, Bytes: "40"}},
+		{Data: &DataOp{Local: byte(3 + r.Intn(12)), Bytes: "41"}},
+		{Data: &DataOp{Local: 2, Bytes: "42"}},
+	}})
+	// 5. the same local types as 4, but defined: run before 4 it leaves definitions behind
+	out = append(out, &RecStream{Header: hdr(), Ops: []Op{
+		{Def: &DefOp{Local: 1, Arch: "le", Global: 0, Fields: [][3]int{{0, 1, 0}}}},
+		{Data: &DataOp{Local: 1, Bytes: "04"}},
+		{Def: &DefOp{Local: 3, Arch: "le", Global: 20, Fields: [][3]int{{3, 1, 2}}}},
+		{Def: &DefOp{Local: 7, Arch: "le", Global: 20, Fields: [][3]int{{3, 1, 2}}}},
+		{Def: &DefOp{Local: 11, Arch: "le", Global: 20, Fields: [][3]int{{3, 1, 2}}}},
+		{Def: &DefOp{Local: 14, Arch: "le", Global: 20, Fields: [][3]int{{3, 1, 2}}}},
+		{Data: &DataOp{Local: 3, Bytes: "60"}},
+		{Data: &DataOp{Local: 14, Bytes: "61"}},
+	}})
+	return out
 }
